@@ -8,7 +8,7 @@ from harness.common import Ctx, drive, guard
 
 RULE = ("Hypothesis draws a series (length 3-2000; shapes: explicit element list for short series, constant, linear, "
         "alternating, tiled-pattern, random walk = cumulative sum of a tiled drawn pattern, sinusoid mixtures; scales 1e-3..1e6, "
-        "offsets) and lambda log-uniform in [1e-3,1e7]; oracles: cycle+trend=series, HP first-order condition with a "
+        "offsets) and lambda log-uniform in [1e-3,1e7] or an integer (Python / numpy) in [1,1e7]; oracles: cycle+trend=series, HP first-order condition with a "
         "hand-written second-difference stencil, definitions of the three derived filters, finiteness of the 18 moments. "
         "Non-trivial = the series has non-zero second differences (otherwise trend == series for any lambda).")
 ASSUMPTIONS = ["HP optimality residual tolerance 1e-12*(1+16*lambda)*max|y| (backward error of a sparse LU solve)",
@@ -80,7 +80,13 @@ def hp_cases(draw):
     # two smoothing parameters: the second call, on a series of the same length, must not depend on the first
     return {"series": draw(series()), "as_int": draw(st.integers(0, 5)) == 0,
             "log10_lamb": draw(st.sampled_from([k / 4 for k in range(-12, 29)])),
-            "log10_lamb_before": draw(st.one_of(st.none(), st.sampled_from([k / 2 for k in range(-6, 15)])))}
+            "log10_lamb_before": draw(st.one_of(st.none(), st.sampled_from([k / 2 for k in range(-6, 15)]))),
+            # the smoothing parameter written as an integer (100, 1600, 14400 ... are the textbook values), as a Python int
+            # or a numpy integer
+            "lamb_int": draw(st.one_of(st.none(), st.none(), st.sampled_from([1, 2, 7, 22, 100, 127, 128, 255, 256, 400, 1600, 6400,
+                                                                              14400, 32767, 32768, 65535, 129600, 10**7]),
+                                       st.integers(1, 10**6))),
+            "lamb_type": draw(st.sampled_from(["int", "int", "int64", "int32"]))}
 
 
 def check_hp(ctx: Ctx, case):
@@ -91,8 +97,11 @@ def check_hp(ctx: Ctx, case):
     if case.get("as_int") and np.max(np.abs(y)) < 1e15:
         y = np.rint(y * (10.0 if np.max(np.abs(y)) < 50 else 1.0)).astype(np.int64)
     lamb = 10.0 ** case["log10_lamb"]
+    if case.get("lamb_int") is not None:
+        lamb = {"int": int, "int64": np.int64, "int32": np.int32}[case.get("lamb_type", "int")](case["lamb_int"])
     y0 = y.copy()
-    ctx.count(sub, case, nontrivial(y), [case["series"]["shape"], f"lamb~1e{int(round(case['log10_lamb']))}"])
+    ctx.count(sub, case, nontrivial(y), [case["series"]["shape"], f"lamb~1e{int(round(np.log10(float(lamb))))}"] +
+              ([f"lambda-{case.get('lamb_type', 'int')}"] if case.get("lamb_int") is not None else []))
     with guard(ctx, "C20/exception", sub, case):
         if case.get("log10_lamb_before") is not None:
             hp_filter(y[::-1].copy(), 10.0 ** case["log10_lamb_before"])  # an earlier, unrelated evaluation
@@ -107,6 +116,7 @@ def check_hp(ctx: Ctx, case):
     if np.max(np.abs(cycle + trend - y)) > 8 * np.finfo(float).eps * max(m, float(np.max(np.abs(trend)))) + TINY:
         ctx.fail("C20/hp-sum", f"cycle + trend differs from the series by {np.max(np.abs(cycle + trend - y))!r}", sub, case)
         return
+    lamb = float(lamb)
     res = hp_residual(y, trend, lamb)
     if res > 1e-12 * (1 + 16 * lamb) * m + TINY:
         ctx.fail("C20/hp-optimality", f"||trend + lambda K'K trend - y||inf = {res!r} for lambda={lamb!r}, max|y|={m!r}",
